@@ -40,15 +40,18 @@ inductive WriteRes
 deriving Repr, DecidableEq
 
 /-- `write_all_vectored` against a transport that accepts `accepts[i]` bytes (capped by what is offered)
-    at its i-th call; returns the bytes that reached the transport -/
+    at its i-th call; returns the bytes that reached the transport.  The loop runs while slices remain
+    (`while !bufs.is_empty()`), so a non-empty list of empty slices makes one more call, which can only accept 0 bytes and
+    is reported as closed — unreachable from `prepare_iovs`, whose first slice is a non-empty header. -/
 def writeAll : List (List Byte) → List Nat → List Byte × WriteRes
-  | bufs, [] => if total bufs = 0 then ([], .done) else ([], .starved)
-  | bufs, a :: as =>
-    if total bufs = 0 then ([], .done)
-    else if a = 0 then ([], .closed)
+  | [], _ => ([], .done)
+  | _ :: _, [] => ([], .starved)
+  | b :: bs, a :: as =>
+    let n := min a (total (b :: bs))
+    if n = 0 then ([], .closed)
     else
-      let r := writeAll (advance bufs (min a (total bufs))) as
-      ((bufs.flatten.take (min a (total bufs))) ++ r.1, r.2)
+      let r := writeAll (advance (b :: bs) n) as
+      (((b :: bs).flatten.take n) ++ r.1, r.2)
 
 /-- cutting a queue into batches of at most `m` frames (what `recv` + `try_recv` up to capacity does when
     everything is already queued) -/
